@@ -262,15 +262,62 @@ var hostileRC = []Prog{
 	{"cyclic-freeze-array", `x := [0]; x[0] = x; out := freeze(x); o2 := len(out)`, false},
 	{"cyclic-freeze-map", `m := {}; m.self = m; out := freeze(m); o2 := len(out)`, false},
 	{"cyclic-freeze-mixed", `p := {}; q := {peer: p, l: [p]}; p.peer = q; out := freeze([p, q]); o2 := len(out)`, false},
+	{"cyclic-freeze-immutable-alias", `x := [0]; y := immutable(x); x[0] = y; out := freeze(y); o2 := len(out)`, false},
+	{"cyclic-freeze-immutable-map-alias", `m := {}; y := immutable(m); m.self = y; out := freeze([y]); o2 := len(out)`, false},
 	{"panic-in-builtin-arg", `out := [1, 2][a / b]`, false},
+	// a host function (or a stdlib function wrapping a Go call) that panics
+	// with a string, an error, a run-time error or any other value
+	{"host-panic-string", `out := hp(0)`, false},
+	{"host-panic-error", `out := hp(1)`, false},
+	{"host-panic-runtime", `out := hp(2)`, false},
+	{"host-panic-value", `out := hp(3)`, false},
+	{"host-panic-nested", `f := func(k) { return [hp(k)] }; out := f(0) + f(3)`, false},
+}
+
+// programs that never terminate on their own: only run with a context that
+// is already cancelled
+var endlessRC = []Prog{
+	{"endless-loop", `for { a += 1 }`, false},
+	{"endless-tail-recursion", `f := func(n) { return f(n + 1) }; f(a)`, false},
+	{"endless-for-in", `x := [1]; for v in x { x = append(x, v) }`, false},
+}
+
+type hostPanicValue struct{ code int }
+
+func hostPanic(args ...tengo.Object) (tengo.Object, error) {
+	k, _ := tengo.ToInt(args[0])
+	switch k {
+	case 0:
+		panic("host function panicked with a string")
+	case 1:
+		panic(tengo.ErrInvalidIndexType)
+	case 2:
+		var m map[string]int
+		m["x"] = 1
+	default:
+		panic(hostPanicValue{code: 7})
+	}
+	return nil, nil
 }
 
 // C05_RunContext: hostile programs with symbolic inputs through
 // Compiled.RunContext: the call returns nil or an error, never panics, never
 // hangs; the compiled object stays usable (lock released, Get/Set/Run work).
 func C05_RunContext() {
-	p := hostileRC[vf.Choice("prog", len(hostileRC))]
+	ctxkind := vf.Choice("ctxkind", 3)
+	var p Prog
+	if ctxkind == 2 {
+		k := vf.Choice("prog", len(hostileRC)+len(endlessRC))
+		if k < len(hostileRC) {
+			p = hostileRC[k]
+		} else {
+			p = endlessRC[k-len(hostileRC)]
+		}
+	} else {
+		p = hostileRC[vf.Choice("prog", len(hostileRC))]
+	}
 	s := tengo.NewScript([]byte(p.Src))
+	_ = s.Add("hp", &tengo.UserFunction{Name: "hp", Value: hostPanic})
 	a, b := vf.Int64("a"), vf.Int64("b")
 	switch p.Name {
 	case "bytes-negative":
@@ -287,8 +334,27 @@ func C05_RunContext() {
 	vf.Assert(err == nil, "hostile program compiles: "+p.Name)
 	var rerr error
 	var ctx context.Context = liveCtx()
-	if vf.Choice("ctxkind", 2) == 1 {
+	switch ctxkind {
+	case 1:
 		ctx = bgctx{} // a context that can never be cancelled (Done() == nil)
+	case 2:
+		// a context that is already cancelled when RunContext is entered
+		dc := liveCtx()
+		dc.err = context.Canceled
+		close(dc.done)
+		ctx = dc
+	}
+	polls := 0
+	if ctxkind == 2 {
+		// the engine's goroutines are cooperative: after two VM polls the
+		// goroutine waiting on the cancelled context gets its turn (natively the
+		// Go scheduler does this)
+		vf.SetHook("poll", func() {
+			polls++
+			if polls%2 == 0 {
+				vf.Handoff()
+			}
+		})
 	}
 	res := vf.Guard(func() { rerr = c.RunContext(ctx) }, 6000000)
 	vf.Assert(res == 0, "RunContext returns (no panic reaches the host, no hang, no fatal error): "+p.Name+": "+vf.LastGuard())
@@ -301,8 +367,17 @@ func C05_RunContext() {
 		_ = c.IsDefined("a")
 		_ = c.Set("a", 1)
 		_ = c.Set("b", 1)
-		_ = c.RunContext(liveCtx())
+		if ctxkind == 2 {
+			// (the program may be one that never terminates on its own)
+			dc := liveCtx()
+			dc.err = context.Canceled
+			close(dc.done)
+			_ = c.RunContext(dc)
+		} else {
+			_ = c.RunContext(liveCtx())
+		}
 	}, 30000000)
+	vf.SetHook("poll", nil)
 	vf.Assert(res == 0, "compiled object usable after a failed run (Get/Set/RunContext): "+p.Name+": "+vf.LastGuard())
 	vf.Reach("runcontext")
 }
